@@ -211,6 +211,8 @@ enum BKind {
 #[derive(Clone, Default)]
 struct AState {
 	utxo: BTreeMap<usize, (u64, bool)>,
+	/// NRD kernel excesses (first 8 bytes, hex) on the path to this block, most recent first
+	nrd: Vec<(String, u64)>,
 }
 
 struct Cfg {
@@ -248,6 +250,8 @@ struct World {
 	default_form: Form,
 	/// eviction-focused history: mostly admissible submissions, few blocks
 	focus: bool,
+	/// blocks whose HEADER the node has accepted but whose body it has not seen yet (oldest first)
+	pending_bodies: Vec<usize>,
 	/// transactions first admitted below the minimum fee while the txpool was over capacity
 	lowfee_known: BTreeSet<String>,
 	over_capacity_before: bool,
@@ -320,6 +324,7 @@ impl World {
 			evicted_explained: BTreeMap::new(),
 			default_form: Form::V3,
 			focus: false,
+			pending_bodies: vec![],
 			lowfee_known: BTreeSet::new(),
 			over_capacity_before: false,
 			validated: std::collections::HashSet::new(),
@@ -470,7 +475,16 @@ impl World {
 			.iter()
 			.map(|(o, h, cb)| format!("o{}:{}:{}", o, h, if *cb { 1 } else { 0 }))
 			.collect();
-		out.raw(&format!("pool head b{} h={} ver={} utxo=[{}]", id, hh.height, hh.version.0, u.join(",")));
+		let nrd: Vec<String> =
+			self.states.get(&id).map(|s| s.nrd.iter().map(|(e, h)| format!("{}:{}", e, h)).collect()).unwrap_or_default();
+		out.raw(&format!(
+			"pool head b{} h={} ver={} utxo=[{}] nrd=[{}]",
+			id,
+			hh.height,
+			hh.version.0,
+			u.join(","),
+			nrd.join(",")
+		));
 	}
 
 	// -------------------------------------------------------------------------------------
@@ -532,6 +546,58 @@ impl World {
 			self.tx_ins(tx).into_iter().filter(|i| !created.contains(i) && !self.unspent_on_head(*i)).collect();
 		v.sort();
 		v
+	}
+
+	/// Is the transaction inadmissible at the height of the NEXT block on the BODY head: a kernel
+	/// locked beyond it, a coinbase output of the chain spent before its maturity, an NRD kernel
+	/// repeating an excess seen on the chain fewer than its relative height blocks before it?
+	fn too_early(&self, tx: &Transaction) -> Option<String> {
+		let next = self.node.head().map(|t| t.height).unwrap_or(0) + 1;
+		if tx.lock_height() > next {
+			return Some(format!("lock-height {} > next block height {}", tx.lock_height(), next));
+		}
+		let mut created = BTreeSet::new();
+		for e in self.pool.txpool.entries.iter().chain(self.pool.stempool.entries.iter()) {
+			created.extend(self.tx_outs(&e.tx));
+		}
+		for i in self.tx_ins(tx) {
+			if created.contains(&i) {
+				continue;
+			}
+			if let Some(r) = self.kit.outs.get(i) {
+				if let Ok(Some((oi, pos))) = self.node.get_unspent(r.commit) {
+					if oi.features.is_coinbase() && next < pos.height + MATURITY {
+						return Some(format!(
+							"coinbase o{} created at height {} matures at {} > next block height {}",
+							i,
+							pos.height,
+							pos.height + MATURITY,
+							next
+						));
+					}
+				}
+			}
+		}
+		if let Some(st) = self.states.get(&self.head) {
+			for k in tx.kernels() {
+				if let KernelFeatures::NoRecentDuplicate { relative_height, .. } = k.features {
+					let ex = hex(&k.excess.0[..8]);
+					if let Some((_, h0)) = st.nrd.iter().find(|(e, _)| *e == ex) {
+						let rel: u64 = relative_height.into();
+						if next < h0 + rel {
+							return Some(format!(
+								"nrd-relative-height {} with the excess last seen at height {}: admissible from height {} > next block height {}",
+								rel,
+								h0,
+								h0 + rel,
+								next
+							));
+						}
+					}
+				}
+			}
+		}
+		None
 	}
 
 	/// outputs of evicted transactions that currently exist nowhere (neither unspent at the head
@@ -843,12 +909,35 @@ impl World {
 		let txs = match catch(std::panic::AssertUnwindSafe(|| self.pool.prepare_mineable_transactions())) {
 			Ok(Ok(t)) => t,
 			Ok(Err(e)) => {
-				out.raw(&format!(
-					"#ORACLE-FAIL C14 mineable-set-rejected hist={} after [{}]: prepare_mineable_transactions failed: {}",
+				// commitments spent by two txpool entries (one instance on the chain or created earlier,
+				// one re-created in the pool): the situation in which `validate_raw_txs` lets the
+				// aggregation error of a candidate escape
+				let mut spends: BTreeMap<usize, Vec<String>> = BTreeMap::new();
+				let entries: Vec<Transaction> = self.pool.txpool.entries.iter().map(|x| x.tx.clone()).collect();
+				for t in &entries {
+					let sig = self.tx_sig(t);
+					for i in self.tx_ins(t) {
+						spends.entry(i).or_default().push(sig.clone());
+					}
+				}
+				let twice: Vec<String> =
+					spends.iter().filter(|(_, v)| v.len() >= 2).map(|(o, v)| format!("o{} spent by {:?}", o, v)).collect();
+				let listing: Vec<String> = entries
+					.iter()
+					.map(|t| format!("{} fee={} weight={} rate={}", self.tx_sig(t), t.fee(), t.weight(), t.fee_rate()))
+					.collect();
+				let desc = format!(
+					"hist={} after [{}]: prepare_mineable_transactions failed: {} (mine_block.rs falls back to an EMPTY block: no pool transaction is mined); txpool = [{}]; commitments spent twice in the txpool (re-created in between): {:?}",
 					self.name,
 					ctx,
-					perr(&e)
-				));
+					perr(&e),
+					listing.join("; "),
+					twice
+				);
+				// (the case "a commitment spent, re-created and spent again inside the pool" was the
+				// defect C14-mineable-set-fails-on-recreated-commitment, repaired in 611fc1746: any
+				// failure of prepare_mineable_transactions is a violation)
+				out.raw(&format!("#ORACLE-FAIL C14 mineable-set-rejected {}", desc));
 				return format!("err:{}", perr(&e));
 			}
 			Err(p) => {
@@ -928,6 +1017,11 @@ impl World {
 		for o in b.outputs() {
 			if let Some(id) = self.kit.by_commit.get(&o.commitment()) {
 				s.utxo.insert(*id, (b.header.height, o.is_coinbase()));
+			}
+		}
+		for k in b.kernels() {
+			if let KernelFeatures::NoRecentDuplicate { .. } = k.features {
+				s.nrd.insert(0, (hex(&k.excess.0[..8]), b.header.height));
 			}
 		}
 		s
@@ -1108,6 +1202,8 @@ impl World {
 			&& tx.kernels().len() > 1
 			&& self.pool.txpool.entries.iter().any(|e| e.tx.kernels().iter().all(|k| tx.kernels().contains(k)));
 		let missing = if deaggregates { vec![] } else { self.missing_inputs(&tx, stem_path) };
+		// height-dependent conditions, evaluated on the BODY head (whatever headers the node holds)
+		let too_early = if deaggregates { None } else { self.too_early(&tx) };
 		let my_ins = self.tx_ins(&tx);
 		let stem_len = self.pool.stempool.entries.len();
 		let stem_hit = self.pool.stempool.entries.iter().filter(|e| self.tx_ins(&e.tx).iter().any(|i| my_ins.contains(i))).count();
@@ -1132,9 +1228,28 @@ impl World {
 		self.stat(&format!("submit:{}:{}", kind, res));
 		self.stat(&format!("result:{}", res));
 		self.stat(&format!("form:{}:{}", form.tag(), path));
+		if self.gap() > 0 {
+			self.stat(&format!("header-first:submission-in-gap:{}:{}", kind.split(':').next().unwrap_or(""), res));
+		}
 		self.stat(&format!("form:{}:{}", form.tag(), if res == "ok" { "admitted" } else { "refused" }));
 		if res.starts_with("panic") {
 			out.raw(&format!("#ORACLE-FAIL C14 pool-panicked hist={} {} => {}", self.name, lhs, res));
+		}
+		if let Some(why) = &too_early {
+			self.stat(&format!("too-early:{}:{}", why.split(' ').next().unwrap_or(""), if res == "ok" { "ADMITTED" } else { "refused" }));
+			if res == "ok" {
+				let hh = self.node.header_head().map(|t| t.height).unwrap_or(0);
+				let sig = self.tx_sig(&tx);
+				out.raw(&format!(
+					"#ORACLE-FAIL C14 transaction-admitted-before-its-height hist={} {}: {} (body head height {}, header_head height {}); tx = {}",
+					self.name,
+					lhs,
+					why,
+					self.node.head().map(|t| t.height).unwrap_or(0),
+					hh,
+					sig
+				));
+			}
 		}
 		if !stem_path && res == "ok" && stem_hit > 0 {
 			self.stat(&format!(
@@ -1338,6 +1453,70 @@ impl World {
 				None
 			}
 		}
+	}
+
+	/// header-first propagation: build `n` empty blocks on the head (on the builder chain) and give
+	/// the node only their HEADERS.  The body head - what the pool's height-dependent checks and the
+	/// miner refer to - does not move; the pool is not told anything.
+	fn headers_first(&mut self, out: &mut Out, n: usize) -> bool {
+		if !self.pending_bodies.is_empty() {
+			return false;
+		}
+		let mut tip = self.head;
+		for _ in 0..n {
+			match self.build_block(tip, 1, &[]) {
+				Some(id) => {
+					let h = self.kit.blks[id].block.header.clone();
+					match self.node.process_block_header(&h, Options::SKIP_POW) {
+						Ok(_) => {
+							self.pending_bodies.push(id);
+							tip = id;
+						}
+						Err(e) => {
+							out.raw(&format!("#STAT header-first:header-rejected:{}", error_class(&e)));
+							break;
+						}
+					}
+				}
+				None => break,
+			}
+		}
+		if self.pending_bodies.is_empty() {
+			return false;
+		}
+		self.step += 1;
+		let head_h = self.node.head().map(|t| t.height).unwrap_or(0);
+		let hh_h = self.node.header_head().map(|t| t.height).unwrap_or(0);
+		self.stat(&format!("header-first:gap={}", hh_h.saturating_sub(head_h)));
+		out.raw(&format!(
+			"# hist={}: node accepted {} header(s) ahead of the body head: head height {} header_head height {}",
+			self.name,
+			self.pending_bodies.len(),
+			head_h,
+			hh_h
+		));
+		if head_h != self.kit.blks[self.head].height || hh_h != head_h + self.pending_bodies.len() as u64 {
+			out.raw(&format!("#STAT header-first:UNEXPECTED heads: head {} header_head {}", head_h, hh_h));
+		}
+		// nothing changed for the pool: the oracles (joint validity, the mineable block on the REAL
+		// head) run in this state
+		self.obs(out, "headers accepted ahead of the body");
+		true
+	}
+
+	/// the body of the oldest header-only block arrives
+	fn deliver_pending(&mut self, out: &mut Out) -> bool {
+		if self.pending_bodies.is_empty() {
+			return false;
+		}
+		let id = self.pending_bodies.remove(0);
+		let r = self.deliver(out, id);
+		self.stat(&format!("header-first:body-delivered:{}", r));
+		true
+	}
+
+	fn gap(&self) -> u64 {
+		self.pending_bodies.len() as u64
 	}
 
 	fn evict(&mut self, out: &mut Out) {
@@ -2609,6 +2788,18 @@ fn tree_patterns() -> Vec<(&'static str, Vec<Node>, bool)> {
 			node(None, 1, 200), node(Some(0), 2, 102), node(Some(1), 1, 100), node(Some(1), 1, 196),
 			node(None, 1, 180), node(Some(4), 2, 80), node(Some(5), 1, 95), node(Some(5), 1, 170),
 		], false),
+		// AT CAPACITY when the last node arrives (its own admission triggers the eviction), the entry
+		// just before it is its parent: the new transaction pays least of all -> it is the victim
+		// (own bucket at the end), never its parent
+		("at-capacity:F1-F2-P-C:new-child-cheapest-own-bucket", vec![node(None, 1, 300), node(None, 1, 250), node(None, 1, 200), node(Some(2), 1, 10)], true),
+		// ... pays little but enough to join its parent's bucket (223 >= 200): last of the last bucket
+		("at-capacity:F1-F2-P-C:new-child-cheapest-merged", vec![node(None, 1, 300), node(None, 1, 250), node(None, 1, 200), node(Some(2), 1, 50)], true),
+		// ... second child of P, the first one merged
+		("at-capacity:F1-P-C1-C2:new-second-child-cheapest", vec![node(None, 1, 300), node(None, 2, 200), node(Some(1), 1, 400), node(Some(1), 1, 10)], true),
+		// ... parent and child alone (max_pool_size 0)
+		("at-capacity:P-C:new-child-cheapest-alone", vec![node(None, 1, 200), node(Some(0), 1, 10)], true),
+		// ... the new child pays most: an independent entry goes
+		("at-capacity:F1-F2-P-C:new-child-pays-most", vec![node(None, 1, 300), node(None, 1, 250), node(None, 1, 200), node(Some(2), 1, 500)], true),
 		// the bucket of D+E+F would outrank P's if they were bucketed together (221 vs 200): P must stay
 		("P-D-EF:subtree-outranks-root", vec![node(None, 1, 200), node(Some(0), 2, 150), node(Some(1), 1, 160), node(Some(1), 1, 199)], true),
 	]
@@ -2663,6 +2854,9 @@ fn scenario_evict_trees(work: &str, out: &mut Out, total: &mut BTreeMap<String, 
 	w.obs(out, "start");
 	let mut trees: Vec<(String, Vec<Node>, Option<bool>)> = vec![];
 	let quick_set = [
+		"at-capacity:F1-F2-P-C:new-child-cheapest-own-bucket",
+		"at-capacity:F1-F2-P-C:new-child-cheapest-merged",
+		"at-capacity:F1-P-C1-C2:new-second-child-cheapest",
 		"P-D-EF:E-cheapest",
 		"P-D-EF:F-cheapest",
 		"P-D-EF:D-cheapest",
@@ -2700,7 +2894,9 @@ fn scenario_evict_trees(work: &str, out: &mut Out, total: &mut BTreeMap<String, 
 		}
 		let mut free = free;
 		// capacity: what is pooled already plus the tree, minus one
-		let cap = w.pool.txpool.entries.len() + nodes.len() - 1;
+		// (patterns "at-capacity": minus two, so that the last node's own admission evicts)
+		let at_capacity = label.starts_with("at-capacity");
+		let cap = w.pool.txpool.entries.len() + nodes.len() - if at_capacity { 2 } else { 1 };
 		w.pool.config.max_pool_size = cap;
 		w.cfg.max_pool = cap;
 		out.raw(&format!(
@@ -2743,7 +2939,23 @@ fn scenario_evict_trees(work: &str, out: &mut Out, total: &mut BTreeMap<String, 
 			next_out.push(0);
 		}
 		w.stat(&format!("tree:{}:built={}", label, all_in));
-		if std::env::var("VERIF_POOL_SELFTEST").is_ok() && !built.is_empty() {
+		if at_capacity {
+			// which node did the arrival of the last one push out?
+			let pooled: Vec<Transaction> = w.pool.txpool.entries.iter().map(|e| e.tx.clone()).collect();
+			let missing: Vec<usize> = (0..built.len()).filter(|k| !pooled.iter().any(|p| p.kernels() == built[*k].kernels())).collect();
+			w.stat(&format!("tree:{}:victim-on-arrival-of-last-node={:?}", label, missing));
+			let last = built.len() - 1;
+			if let Some(parent) = nodes[last].parent {
+				if missing.contains(&parent) && !missing.contains(&last) {
+					// (the eviction oracle has reported it already; this names the shape)
+					out.raw(&format!(
+						"#ORACLE-FAIL C14 evicted-parent-of-the-transaction-just-admitted hist={} tree {}: node{} (parent of the new node{}) was evicted and the new transaction stays",
+						w.name, label, parent, last
+					));
+				}
+			}
+		}
+		if std::env::var("VERIF_POOL_SELFTEST").as_deref() == Ok("1") && !built.is_empty() {
 			// development aid (never set by the check): feed the eviction oracle a fabricated outcome
 			// in which the ROOT of the tree was removed, to see that it is reported
 			let pre: Vec<Transaction> = w.pool.txpool.entries.iter().map(|e| e.tx.clone()).collect();
@@ -2924,6 +3136,378 @@ fn scenario_stempool_reconcile(work: &str, out: &mut Out, total: &mut BTreeMap<S
 	merge_stats(&w, total);
 }
 
+
+/// Degenerate submissions: the EMPTY transaction (it decodes from the wire), transactions without
+/// kernels / inputs / outputs, a kernel alone - on both paths, into an empty and a non-empty pool,
+/// below and over capacity.  They must be refused (or, where consensus-valid, admitted) without a
+/// panic: `fee_rate()` divides by the weight.
+fn scenario_degenerate(work: &str, out: &mut Out, total: &mut BTreeMap<String, u64>) {
+	use grin_core::ser::{self, ProtocolVersion};
+	let mut rng = Rng::new(seed_from_env().wrapping_mul(13).wrapping_add(501));
+	let mut w = World::new(work, "degenerate", Cfg { max_pool: 2, max_stem: 2, mine_w: 250 });
+	print_cfg(&w, out);
+	warm_up(&mut w, out, &mut rng, 9);
+	w.print_head(out);
+	w.obs(out, "start");
+	let mut free = w.free_utxo();
+	if free.len() < 6 {
+		out.raw(&format!("#STAT scenario:degenerate=not-enough-outputs({})", free.len()));
+		return;
+	}
+	// the empty transaction on the wire
+	let empty = Transaction::empty();
+	for pv in [2u32, 3] {
+		let bytes = ser::ser_vec(&empty, ProtocolVersion(pv)).unwrap_or_default();
+		let back: Result<Transaction, _> =
+			ser::deserialize(&mut &bytes[..], ProtocolVersion(pv), ser::DeserializationMode::default());
+		out.raw(&format!(
+			"#STAT degenerate:empty-transaction:protocol-version={}:wire-bytes={}:decodes={}",
+			pv,
+			bytes.len(),
+			back.is_ok()
+		));
+	}
+	let w11 = World::weight_of(1, 1);
+	let mut cases: Vec<(usize, &'static str)> = vec![];
+	let t = w.add_tx(out, empty, vec![], "degenerate:empty");
+	cases.push((t, "empty"));
+	// no kernels: a valid transaction stripped of its kernel
+	let mut nk = w.spend(&[free[0]], 1, w11 * FEE_BASE * 2, None).unwrap();
+	nk.body.kernels.clear();
+	let t = w.add_tx(out, nk, vec![], "degenerate:no-kernels");
+	cases.push((t, "no-kernels"));
+	// no inputs: an output and a kernel out of thin air
+	if let Ok(ni) = w.build(&[], &[1000], KernelFeatures::Plain { fee: FeeFields::new(0, 100).unwrap() }) {
+		let t = w.add_tx(out, ni, vec![], "degenerate:no-inputs");
+		cases.push((t, "no-inputs"));
+	}
+	// no outputs: everything goes to the fee (consensus-valid)
+	let plain: Vec<usize> = free.iter().cloned().filter(|o| !w.kit.outs[*o].coinbase && w.kit.outs[*o].value < (1u64 << 39)).collect();
+	let burn_in = plain.first().cloned().or_else(|| free.iter().cloned().find(|o| w.kit.outs[*o].value < (1u64 << 39)));
+	if let Some(o) = burn_in {
+		let v = w.kit.outs[o].value;
+		if let Ok(no) = w.build(&[o], &[], KernelFeatures::Plain { fee: FeeFields::new(0, v).unwrap() }) {
+			let t = w.add_tx(out, no, vec![], "degenerate:no-outputs-all-to-fee");
+			cases.push((t, "no-outputs"));
+		}
+		free.retain(|x| *x != o);
+	}
+	// a kernel alone (fee 0 and fee > 0)
+	for fee in [0u64, 77] {
+		match w.build(&[], &[], KernelFeatures::Plain { fee: FeeFields::new(0, fee).unwrap_or(FeeFields::zero()) }) {
+			Ok(ko) => {
+				let t = w.add_tx(out, ko, vec![], "degenerate:kernel-only");
+				cases.push((t, "kernel-only"));
+			}
+			Err(e) => out.raw(&format!("#STAT degenerate:kernel-only:fee={}:cannot-be-built:{}", fee, e.replace(' ', "_"))),
+		}
+	}
+	let paths: [(bool, bool); 3] = [(false, true), (true, true), (true, false)];
+	let mut round = |w: &mut World, out: &mut Out, state: &str| {
+		for (t, label) in cases.iter() {
+			for (stem, ok) in paths.iter() {
+				for form in [Form::V3, Form::V2] {
+					let before_tx: Vec<String> = w.pool.txpool.entries.clone().iter().map(|e| w.entry_sig(e)).collect();
+					let before_st: Vec<String> = w.pool.stempool.entries.clone().iter().map(|e| w.entry_sig(e)).collect();
+					let res = w.submit_form(out, *t, TxSource::PushApi, *stem, *ok, form);
+					w.stat(&format!("degenerate:{}:{}:{}:{}", label, state, if *stem { "stem" } else { "fluff" }, res));
+					let after_tx: Vec<String> = w.pool.txpool.entries.clone().iter().map(|e| w.entry_sig(e)).collect();
+					let after_st: Vec<String> = w.pool.stempool.entries.clone().iter().map(|e| w.entry_sig(e)).collect();
+					if res.starts_with("panic") {
+						out.raw(&format!(
+							"#ORACLE-FAIL C14 pool-degenerate-transaction-panics hist=degenerate pool submit t{} ({}; pool {}; stem={} form={}) => {}",
+							t, label, state, stem, form.tag(), res
+						));
+					} else if res != "ok" && (before_tx != after_tx || before_st != after_st) {
+						out.raw(&format!(
+							"#ORACLE-FAIL C14 pool-degenerate-transaction-changes-pool hist=degenerate pool submit t{} ({}; pool {}) => {} but txpool {:?} -> {:?}, stempool {:?} -> {:?}",
+							t, label, state, res, before_tx, after_tx, before_st, after_st
+						));
+					} else if res == "ok" && *label != "no-outputs" {
+						out.raw(&format!(
+							"#ORACLE-FAIL C14 pool-degenerate-transaction-admitted hist=degenerate pool submit t{} ({}; pool {}; stem={} form={})",
+							t, label, state, stem, form.tag()
+						));
+					}
+				}
+			}
+		}
+	};
+	round(&mut w, out, "empty");
+	// a non-empty pool below capacity
+	let a = w.spend(&[free[1]], 2, World::weight_of(1, 2) * FEE_BASE * 3, None).unwrap();
+	let ta = w.add_tx(out, a, vec![], "valid");
+	w.submit(out, ta, TxSource::Broadcast, false, true);
+	let b = w.spend(&[free[2]], 1, w11 * FEE_BASE * 2, None).unwrap();
+	let tb = w.add_tx(out, b, vec![], "valid");
+	w.submit(out, tb, TxSource::Broadcast, true, true);
+	round(&mut w, out, "non-empty");
+	// over capacity (the fee check is skipped there: the recorded low-fee finding)
+	for k in 3..5 {
+		if let Some(x) = w.spend(&[free[k]], 1, w11 * FEE_BASE * (k as u64), None) {
+			let t = w.add_tx(out, x, vec![], "valid");
+			w.submit(out, t, TxSource::Broadcast, false, true);
+		}
+	}
+	round(&mut w, out, "over-capacity");
+	let txs = w.pool.prepare_mineable_transactions().unwrap_or_default();
+	let parent = w.head;
+	if let Some(id) = w.build_block(parent, 1, &txs) {
+		w.deliver(out, id);
+	}
+	merge_stats(&w, total);
+}
+
+
+/// Header-first propagation: the node has accepted the HEADERS of the next two blocks but not the
+/// blocks.  Transactions sitting exactly in the gap - lock height, coinbase maturity and NRD
+/// relative height satisfied at header_head + 1 but not at (body) head + 1 - must be refused until
+/// the body head gets there; one below / at / one above each threshold, fluff and stem.  After
+/// every step the block built from the mineable set on the REAL head must be accepted.
+fn scenario_header_gap(work: &str, out: &mut Out, total: &mut BTreeMap<String, u64>) {
+	let mut rng = Rng::new(seed_from_env().wrapping_mul(19).wrapping_add(601));
+	let mut w = World::new(work, "header-gap", Cfg { max_pool: 50, max_stem: 50, mine_w: 250 });
+	print_cfg(&w, out);
+	warm_up(&mut w, out, &mut rng, 12);
+	// four NRD kernels (excess slots 1..4) get confirmed in one block: the reference points of the
+	// relative heights (one excess per candidate below, so that they do not conflict with each other)
+	let free = w.free_utxo();
+	let w11 = World::weight_of(1, 1);
+	let mut nrd_h0 = None;
+	{
+		let mut refs = vec![];
+		for (slot, o) in free.iter().take(4).enumerate() {
+			let v = w.kit.outs[*o].value;
+			let fee = w11 * FEE_BASE * 2;
+			let spec = TxSpec { inputs: vec![*o], outputs: vec![(v - fee, None)], kernel: KSpec::Nrd(fee, 1, slot + 1) };
+			if let Ok(k0) = w.kit.build_tx(&spec) {
+				refs.push(k0);
+			}
+		}
+		let parent = w.head;
+		if refs.len() == 4 {
+			if let Some(id) = w.build_block(parent, 1, &refs) {
+				if w.deliver(out, id) == "next" {
+					nrd_h0 = Some(w.kit.blks[id].height);
+				}
+			}
+		}
+	}
+	// one more block so that coinbases of the last three heights exist
+	let parent = w.head;
+	if let Some(id) = w.build_block(parent, 1, &[]) {
+		w.deliver(out, id);
+	}
+	w.print_head(out);
+	w.obs(out, "start");
+	let h = w.kit.blks[w.head].height; // the body head
+	out.raw(&format!("#STAT scenario:header-gap:body-head-height={} nrd-kernel-confirmed-at={:?}", h, nrd_h0));
+	// candidates, built BEFORE the headers arrive (every one on its own unspent output)
+	let free = w.free_utxo();
+	let mut spare: Vec<usize> = free.iter().cloned().collect();
+	let mut take = |spare: &mut Vec<usize>| -> Option<usize> { if spare.is_empty() { None } else { Some(spare.remove(0)) } };
+	// (label, tx id, the body-head height from which it is admissible)
+	let mut cands: Vec<(String, usize, u64)> = vec![];
+	for lock in [h + 1, h + 2, h + 3, h + 4] {
+		if let Some(o) = take(&mut spare) {
+			let fee = w11 * FEE_BASE * 2;
+			let f = KernelFeatures::HeightLocked { fee: FeeFields::new(0, fee).unwrap(), lock_height: lock };
+			if let Some(tx) = w.spend(&[o], 1, fee, Some(f)) {
+				let t = w.add_tx(out, tx, vec![], &format!("gap:lock-height:head+{}", lock - h));
+				cands.push((format!("lock-height:head+{}", lock - h), t, lock - 1));
+			}
+		}
+	}
+	// coinbases created at h-2 (mature for the next block), h-1, h
+	let cbs: Vec<(usize, u64)> = w.node_utxo().iter().filter(|x| x.2).map(|x| (x.0, x.1)).collect();
+	for hc in [h.saturating_sub(2), h - 1, h] {
+		if let Some((o, _)) = cbs.iter().find(|(_, hh)| *hh == hc) {
+			if let Some(tx) = w.spend(&[*o], 1, w11 * FEE_BASE * 2, None) {
+				let t = w.add_tx(out, tx, vec![], &format!("gap:coinbase-created-at:head-{}", h - hc));
+				cands.push((format!("coinbase-of-head-{}", h - hc), t, hc + MATURITY - 1));
+			}
+		}
+	}
+	// NRD kernels repeating the confirmed excess: relative height d (admissible now), d+1, d+2, d+3
+	let mut nrd_cands: Vec<(String, usize, u64)> = vec![];
+	if let Some(h0) = nrd_h0 {
+		let d = h + 1 - h0;
+		for (slot, rel) in [d + 1, d + 2, d + 3, d].into_iter().enumerate() {
+			if let Some(o) = take(&mut spare) {
+				let v = w.kit.outs[o].value;
+				let fee = w11 * FEE_BASE * 2;
+				let spec = TxSpec { inputs: vec![o], outputs: vec![(v - fee, None)], kernel: KSpec::Nrd(fee, rel, slot + 1) };
+				if let Ok(tx) = w.kit.build_tx(&spec) {
+					let t = w.add_tx(out, tx, vec![], &format!("gap:nrd-relative-height:d+{}", rel - d));
+					nrd_cands.push((format!("nrd:d+{}", rel - d), t, h0 + rel - 1));
+				}
+			}
+		}
+	}
+	// the headers of the next two blocks arrive, the blocks do not
+	if !w.headers_first(out, 2) {
+		out.raw("#STAT scenario:header-gap=headers-not-accepted");
+		return;
+	}
+	let submit_all = |w: &mut World, out: &mut Out, cands: &[(String, usize, u64)], phase: &str| {
+		let body = w.kit.blks[w.head].height;
+		for (k, (label, t, from)) in cands.iter().enumerate() {
+			// already pooled?
+			let pooled = w.pool.txpool.contains_tx(&w.txs[*t].tx) || w.pool.stempool.contains_tx(&w.txs[*t].tx);
+			let mined = !w.missing_inputs(&w.txs[*t].tx, true).is_empty();
+			if pooled || mined {
+				continue;
+			}
+			let (stem, form) = match k % 3 {
+				0 => (false, Form::V3),
+				1 => (true, Form::V2),
+				_ => (false, Form::V2),
+			};
+			let res = w.submit_form(out, *t, TxSource::PushApi, stem, true, form);
+			let due = body >= *from;
+			w.stat(&format!("gap:{}:{}:{}:{}", phase, label, if due { "due" } else { "not-yet" }, res));
+			if !due && res == "ok" {
+				out.raw(&format!(
+					"#ORACLE-FAIL C14 transaction-admitted-before-its-height hist={} [{}] {}: admissible from body head height {} on, the body head is at {} (header_head at {}); t{} stem={}",
+					w.name,
+					phase,
+					label,
+					from,
+					body,
+					w.node.header_head().map(|t| t.height).unwrap_or(0),
+					t,
+					stem
+				));
+			}
+			if due && res != "ok" {
+				out.raw(&format!("#STAT gap:UNEXPECTED refusal of a due transaction [{}] {} => {}", phase, label, res));
+			}
+		}
+	};
+	let mut all = cands.clone();
+	all.extend(nrd_cands.iter().cloned());
+	submit_all(&mut w, out, &all, "gap-2");
+	// the first body arrives
+	w.deliver_pending(out);
+	submit_all(&mut w, out, &all, "gap-1");
+	// the second body arrives
+	w.deliver_pending(out);
+	submit_all(&mut w, out, &all, "gap-0");
+	// a block from the mineable set, then once more
+	let txs = w.pool.prepare_mineable_transactions().unwrap_or_default();
+	let parent = w.head;
+	if let Some(id) = w.build_block(parent, 1, &txs).or_else(|| w.build_block(parent, 1, &[])) {
+		w.deliver(out, id);
+	}
+	submit_all(&mut w, out, &all, "after-block");
+	merge_stats(&w, total);
+}
+
+
+/// Regression check for C14-mineable-set-fails-on-recreated-commitment (found by this harness,
+/// repaired in 611fc1746).  A commitment that is unspent on the chain is spent by a pool
+/// transaction B, re-created by A (same key and value; A pays the best rate) and spent again by C
+/// (which pays least and gets its own bucket): the pool is jointly valid; `validate_raw_txs` walks
+/// A (alone it duplicates the unspent commitment: skipped), B, then C, whose aggregate with B has
+/// two spends of the same commitment.  C must be SKIPPED: the mineable set must contain the
+/// bystander and B and be accepted by the chain as a block.  (Before the repair the aggregation
+/// error escaped, `prepare_mineable_transactions` failed and mine_block.rs mined an empty block.)
+fn scenario_recreated_commitment(work: &str, out: &mut Out, total: &mut BTreeMap<String, u64>) {
+	let mut rng = Rng::new(seed_from_env().wrapping_mul(23).wrapping_add(701));
+	let mut w = World::new(work, "recreated-commitment", Cfg { max_pool: 50, max_stem: 50, mine_w: 250 });
+	print_cfg(&w, out);
+	warm_up(&mut w, out, &mut rng, 9);
+	w.print_head(out);
+	w.obs(out, "start");
+	let free = w.free_utxo();
+	let plain: Vec<usize> = free.iter().cloned().filter(|o| !w.kit.outs[*o].coinbase).collect();
+	let others: Vec<usize> = free.iter().cloned().filter(|o| !plain.first().map(|p| p == o).unwrap_or(false)).collect();
+	if plain.is_empty() || others.len() < 2 {
+		out.raw("#STAT scenario:recreated-commitment=not-enough-outputs");
+		return;
+	}
+	let o = plain[0];
+	let vo = w.kit.outs[o].value;
+	let x = *others.iter().find(|y| w.kit.outs[**y].value > vo + 100_000).unwrap_or(&others[0]);
+	let vx = w.kit.outs[x].value;
+	let w11 = World::weight_of(1, 1);
+	// an unrelated, well-paying transaction: what the miner loses
+	let bystander = w.spend(&[*others.iter().find(|y| **y != x).unwrap()], 1, w11 * 30, None).unwrap();
+	let tby = w.add_tx(out, bystander, vec![], "recreate:bystander");
+	w.submit(out, tby, TxSource::Broadcast, false, true);
+	// B spends o (rate 10)
+	let b = w.spend(&[o], 1, w11 * 10, None).unwrap();
+	let tb = w.add_tx(out, b, vec![], "recreate:B-spends-o");
+	w.submit(out, tb, TxSource::Broadcast, false, true);
+	// A re-creates o (rate 20)
+	let fee_a = World::weight_of(1, 2) * 20;
+	if vx <= vo + fee_a + 1 {
+		out.raw("#STAT scenario:recreated-commitment=values-do-not-fit");
+		return;
+	}
+	let spec = TxSpec { inputs: vec![x], outputs: vec![(vo, Some(o)), (vx - vo - fee_a, None)], kernel: KSpec::Plain(fee_a) };
+	let a = match w.kit.build_tx(&spec) {
+		Ok(a) => a,
+		Err(e) => {
+			out.raw(&format!("#STAT scenario:recreated-commitment=cannot-build:{}", e.replace(' ', "_")));
+			return;
+		}
+	};
+	let ta = w.add_tx(out, a, vec![], "recreate:A-recreates-o");
+	w.submit(out, ta, TxSource::Broadcast, false, true);
+	// C spends o again (rate 2: lowers A's bucket, own bucket at the end; were it to join A's
+	// bucket the walk would be A, C, B and fail at B in the same way)
+	let c = w.spend(&[o], 1, w11 * 2, None).unwrap();
+	let tc = w.add_tx(out, c, vec![], "recreate:C-spends-o-again");
+	let res = w.submit(out, tc, TxSource::Broadcast, false, true);
+	let mine = w.pool.prepare_mineable_transactions();
+	out.raw(&format!(
+		"#STAT scenario:recreated-commitment:C-admitted={} prepare_mineable_transactions={}",
+		res,
+		match &mine {
+			Ok(t) => format!("ok({})", t.len()),
+			Err(e) => format!("err:{}", perr(e)),
+		}
+	));
+	match &mine {
+		Ok(set) => {
+			let has = |t: usize| set.iter().any(|m| m.kernels() == w.txs[t].tx.kernels());
+			if !(has(tby) && has(tb)) {
+				let sigs: Vec<String> = set.clone().iter().map(|t| w.tx_sig(t)).collect();
+				out.raw(&format!(
+					"#ORACLE-FAIL C14 mineable-set-rejected hist=recreated-commitment: the mineable set {:?} lacks the bystander t{} or B t{} although both apply on the head",
+					sigs, tby, tb
+				));
+			}
+		}
+		Err(_) => {} // reported by the mine oracle of the last step
+	}
+	// an empty block: nothing changes
+	let parent = w.head;
+	if let Some(id) = w.build_block(parent, 1, &[]) {
+		w.deliver(out, id);
+	}
+	// another submission on top
+	if let Some(y) = others.iter().find(|y| **y != x && !w.pool_spent().contains(y)) {
+		if let Some(t) = w.spend(&[*y], 1, w11 * 8, None) {
+			let t = w.add_tx(out, t, vec![], "valid");
+			w.submit(out, t, TxSource::Broadcast, false, true);
+		}
+	}
+	// a block that confirms B: o is spent on the chain, A and C follow
+	let parent = w.head;
+	let btx = w.txs[tb].tx.clone();
+	if let Some(id) = w.build_block(parent, 1, &[btx]) {
+		w.deliver(out, id);
+	}
+	let txs = w.pool.prepare_mineable_transactions().unwrap_or_default();
+	let parent = w.head;
+	if let Some(id) = w.build_block(parent, 1, &txs) {
+		w.deliver(out, id);
+	}
+	merge_stats(&w, total);
+}
+
 fn run_history(
 	work: &str,
 	out: &mut Out,
@@ -2961,6 +3545,20 @@ fn run_history(
 			16..=17 => Form::V2WrongFeatures,
 			_ => Form::V2Unsorted,
 		};
+		// header-first propagation now and then; while bodies are outstanding the next block that
+		// arrives is the oldest of them
+		if !focus && w.pending_bodies.is_empty() && rng.chance(1, 22) {
+			let n = rng.range(1, 2) as usize;
+			if w.headers_first(out, n) {
+				done += 1;
+				continue;
+			}
+		}
+		if !w.pending_bodies.is_empty() && rng.chance(1, 4) {
+			w.deliver_pending(out);
+			done += 1;
+			continue;
+		}
 		let k = if focus {
 			// 88% submissions, 6% blocks, 2% reorgs, 3% explicit evictions, 1% truncations
 			match rng.below(100) {
@@ -2975,6 +3573,8 @@ fn run_history(
 		};
 		let ok = if k < 72 {
 			random_submission(&mut w, out, rng)
+		} else if k < 93 && !w.pending_bodies.is_empty() {
+			w.deliver_pending(out)
 		} else if k < 86 {
 			random_block(&mut w, out, rng)
 		} else if k < 93 {
@@ -3040,6 +3640,9 @@ fn main() {
 			jobs.push((format!("evict-children-{}", v), Box::new(move |w, o, t| scenario_evict_children(w, o, t, v))));
 		}
 		jobs.push(("forms".into(), Box::new(|w, o, t| scenario_forms(w, o, t))));
+		jobs.push(("recreated-commitment".into(), Box::new(|w, o, t| scenario_recreated_commitment(w, o, t))));
+		jobs.push(("header-gap".into(), Box::new(|w, o, t| scenario_header_gap(w, o, t))));
+		jobs.push(("degenerate".into(), Box::new(|w, o, t| scenario_degenerate(w, o, t))));
 		jobs.push(("stempool-reconcile".into(), Box::new(|w, o, t| scenario_stempool_reconcile(w, o, t))));
 		let nrand = if thorough { 12 } else { 0 };
 		for part in 0..(if thorough { TREE_PARTS } else { 2 }) {
@@ -3093,13 +3696,36 @@ fn main() {
 	let queue: Mutex<std::collections::VecDeque<(usize, String, Job)>> = Mutex::new(order.into_iter().collect());
 	let results: Mutex<Vec<Option<(String, BTreeMap<String, u64>)>>> = Mutex::new((0..njobs).map(|_| None).collect());
 	let t0 = std::time::Instant::now();
+	// the message and location of the last panic on this thread (for the report of a job that dies)
+	thread_local! { static LAST_PANIC: std::cell::RefCell<String> = std::cell::RefCell::new(String::new()); }
+	std::panic::set_hook(Box::new(|info| {
+		let text = format!("{}", info).replace('\n', " ");
+		LAST_PANIC.with(|p| *p.borrow_mut() = text);
+	}));
+	use std::io::Write;
+	let emit = |text: &str| {
+		let stdout = std::io::stdout();
+		let mut lock = stdout.lock();
+		lock.write_all(text.as_bytes()).unwrap();
+		lock.flush().unwrap();
+	};
+	emit(&format!(
+		"#STAT config: accept_fee_base={} (global, what is_acceptable reads) max_tx_weight={} max_block_weight={} maturity={}; per history (max_pool_size,max_stempool_size,mineable_max_weight) in (3,2,130) (50,50,250) (2,1,100) (5,3,75); scenarios use (2,50,250) (1,50,250) (50,50,250), eviction-then-children (2,2,250) (3,2,250), forms (50,50,250)\n",
+		FEE_BASE,
+		global::max_tx_weight(),
+		global::max_block_weight(),
+		MATURITY
+	));
+	let mut total: BTreeMap<String, u64> = BTreeMap::new();
+	let mut failed = false;
 	std::thread::scope(|scope| {
+		let mut handles = vec![];
 		for _ in 0..nthreads {
-			scope.spawn(|| {
+			handles.push(scope.spawn(|| {
 				setup_globals();
 				global::set_local_accept_fee_base(FEE_BASE);
 				loop {
-					let next = queue.lock().unwrap().pop_front();
+					let next = queue.lock().unwrap_or_else(|e| e.into_inner()).pop_front();
 					let (i, name, job) = match next {
 						Some(x) => x,
 						None => break,
@@ -3108,55 +3734,67 @@ fn main() {
 					let _ = std::fs::create_dir_all(&dir);
 					let mut out = Out::new();
 					let mut stats = BTreeMap::new();
-					job(&dir, &mut out, &mut stats);
+					// a panic that escapes the guarded pool calls (in the harness itself, or in chain / pool
+					// code reached through an oracle) must not take the whole run down silently
+					let r = std::panic::catch_unwind(std::panic::AssertUnwindSafe(|| {
+						job(&dir, &mut out, &mut stats);
+						if std::env::var("VERIF_POOL_SELFTEST").as_deref() == Ok("panic") && name == "evict-chain" {
+							panic!("selftest: a panic escaping a job");
+						}
+					}));
+					if r.is_err() {
+						let msg = LAST_PANIC.with(|p| p.borrow().clone());
+						let lines = out.buf.lines().count();
+						out.raw(&format!(
+							"#ORACLE-FAIL C14 pool-harness-job-panicked job={} after {} lines of output: {} - the operations before it are printed above; nothing of this job was evaluated after that point",
+							name, lines, msg
+						));
+					}
 					let _ = std::fs::remove_dir_all(&dir);
 					if std::env::var("VERIF_DEBUG").is_ok() {
 						eprintln!("[{:7.2}s] done {}", t0.elapsed().as_secs_f64(), name);
 					}
-					results.lock().unwrap()[i] = Some((out.buf, stats));
+					results.lock().unwrap_or_else(|e| e.into_inner())[i] = Some((out.buf, stats));
 				}
-			});
+			}));
 		}
-	});
-	let mut total: BTreeMap<String, u64> = BTreeMap::new();
-	let mut text = String::new();
-	text.push_str(&format!(
-		"#STAT config: accept_fee_base={} (global, what is_acceptable reads) max_tx_weight={} max_block_weight={} maturity={}; per history (max_pool_size,max_stempool_size,mineable_max_weight) in (3,2,130) (50,50,250) (2,1,100) (5,3,75); scenarios use (2,50,250) (1,50,250) (50,50,250), eviction-then-children (2,2,250) (3,2,250), forms (50,50,250)\n",
-		FEE_BASE,
-		global::max_tx_weight(),
-		global::max_block_weight(),
-		MATURITY
-	));
-	let mut failed = false;
-	for (i, r) in results.into_inner().unwrap().into_iter().enumerate() {
-		match r {
-			Some((buf, stats)) => {
-				text.push_str(&buf);
-				for (k, v) in stats {
-					if k.contains("max-") {
-						let e = total.entry(k).or_insert(0);
-						if v > *e {
-							*e = v;
+		// print every job's output as soon as it and all earlier ones are done: whatever happens
+		// later (an abort cannot be caught), what was evaluated is on stdout
+		for i in 0..njobs {
+			loop {
+				let r = results.lock().unwrap_or_else(|e| e.into_inner())[i].take();
+				match r {
+					Some((buf, stats)) => {
+						emit(&buf);
+						for (k, v) in stats {
+							if k.contains("max-") {
+								let e = total.entry(k).or_insert(0);
+								if v > *e {
+									*e = v;
+								}
+							} else {
+								*total.entry(k).or_insert(0) += v;
+							}
 						}
-					} else {
-						*total.entry(k).or_insert(0) += v;
+						break;
+					}
+					None => {
+						if handles.iter().all(|h| h.is_finished()) && results.lock().unwrap_or_else(|e| e.into_inner())[i].is_none() {
+							emit(&format!("#ORACLE-FAIL C14 pool-harness-job-lost job index {}: its worker thread ended without a result\n", i));
+							failed = true;
+							break;
+						}
+						std::thread::sleep(std::time::Duration::from_millis(20));
 					}
 				}
 			}
-			None => {
-				eprintln!("pool harness: job {} did not finish (panicked)", i);
-				failed = true;
-			}
 		}
-	}
+	});
+	let mut text = String::new();
 	for (k, v) in total {
 		text.push_str(&format!("#STAT {}={}\n", k, v));
 	}
-	use std::io::Write;
-	let stdout = std::io::stdout();
-	let mut lock = stdout.lock();
-	lock.write_all(text.as_bytes()).unwrap();
-	lock.flush().unwrap();
+	emit(&text);
 	if failed {
 		std::process::exit(1);
 	}
